@@ -495,7 +495,7 @@ func ndEmitDistance(w *strings.Builder, repo string, m ndModel, en env) {
 		}
 	}
 	// locate the counter call (plain, or dispatched by a switch on a receiver field)
-	var params []string
+	var params, lhsAll []string
 	var calls [][2]string // tag, lean list of call words
 	switchOn := ""
 	body := []ast.Stmt{}
@@ -506,6 +506,7 @@ func ndEmitDistance(w *strings.Builder, repo string, m ndModel, en env) {
 				die("numeric translator (%s): more than one counter call", t.fn)
 			}
 			found = true
+			lhsAll = lhs
 			for _, l := range lhs {
 				if l != "_" {
 					params = append(params, l)
@@ -543,6 +544,7 @@ func ndEmitDistance(w *strings.Builder, repo string, m ndModel, en env) {
 					calls = append(calls, [2]string{strconv.FormatInt(mustInt(e, en), 10), words})
 				}
 			}
+			lhsAll = lhs0
 			for _, l := range lhs0 {
 				if l != "_" {
 					params = append(params, l)
@@ -615,7 +617,8 @@ func ndEmitDistance(w *strings.Builder, repo string, m ndModel, en env) {
 		fmt.Fprintf(w, "(%s, %s)", strconv.Quote(c[0]), c[1])
 	}
 	fmt.Fprintf(w, "]\ndef %sSwitchOn : String := %s\n", m.lean, strconv.Quote(switchOn))
-	fmt.Fprintf(w, "def %sCounterResults : List String := %s\n\n", m.lean, leanStrList(params))
+	fmt.Fprintf(w, "/-- the variables the counter results are bound to (`_`: dropped) -/\n")
+	fmt.Fprintf(w, "def %sCounterResults : List String := %s\n\n", m.lean, leanStrList(lhsAll))
 }
 
 // statements of InitModel that only move data around (hand-modelled, validated by correspondence);
